@@ -3,13 +3,17 @@
    Output:  pre=[rows G:...] post=[...] stop=[...] rej=<0|1>     in the harness's ledger format (without '~' parts) *)
 let b2i b = if b then 1 else 0
 
-let show_pi removed r =
+let fin_leaders blocks c =
+  List.fold_left (fun a b -> if b.fin then a + List.length (List.filter (fun (o, _) -> c < 0 || int_of_nat o = c) b.trs) else a) 0 blocks
+
+let show_pi blocks removed r =
   if removed then "x" else
   if not r.pi_some then "none" else
   let f = (if r.pi_c then "c" else "") ^ (if r.pi_h then "h" else "") in
-  (if f = "" then "-" else f) ^ ":" ^ string_of_z r.tc
+  (if f = "" then "-" else f) ^ ":" ^ string_of_int (int_of_z r.tc - fin_leaders blocks (int_of_nat r.cid))
 
-let show_row removed np_rows c =
+let show_row blocks removed np_rows c =
+  let show_pi = show_pi blocks in
   match List.find_opt (fun r -> int_of_nat r.cid = c) np_rows with
   | None -> Printf.sprintf "p%d=N;pi=%s" c (if removed then "x" else "none")
   | Some r ->
@@ -22,16 +26,18 @@ let show_row removed np_rows c =
 
 let show_glob removed s =
   let v = Array.of_list (List.map int_of_z s.g) in
-  let tl = List.length s.blocks and bt = int_of_z (bt_count s.blocks) in
+  let pieces = List.sort_uniq compare (List.map (fun b -> int_of_n b.bidx / 64) s.blocks) in
+  let bf = fin_leaders s.blocks (-1) in
+  let tl = List.length pieces and bt = int_of_z (bt_count s.blocks) - bf in
   if removed then
-    Printf.sprintf "G:cn0,hs%d,uu0,du0,geu0/0,ged0/0,px0,cr0,cw0,cb0,tl0,bt0,cqu%d/%d,cqd%d/%d,rm%d/%d,tu%d,td%d,sk%d"
+    Printf.sprintf "G:cn0,hs%d,uu0,du0,geu0/0,ged0/0,px0,cr0,cw0,cb0,tl0,bt0,bf0,cqu%d/%d,cqd%d/%d,rm%d/%d,tu%d,td%d,sk%d"
       v.(1) v.(4) v.(7) v.(10) v.(13) v.(5) v.(11) v.(15) v.(16) v.(18)
   else
-    Printf.sprintf "G:cn%d,hs%d,uu%d,du%d,geu%d/%d,ged%d/%d,px%d,cr%d,cw%d,cb0,tl%d,bt%d,cqu%d/%d,cqd%d/%d,rm%d/%d,tu%d,td%d,sk%d"
-      v.(0) v.(1) v.(2) v.(8) v.(3) v.(6) v.(9) v.(12) v.(14) v.(17) v.(19) tl bt v.(4) v.(7) v.(10) v.(13) v.(5) v.(11) v.(15) v.(16) v.(18)
+    Printf.sprintf "G:cn%d,hs%d,uu%d,du%d,geu%d/%d,ged%d/%d,px%d,cr%d,cw%d,cb0,tl%d,bt%d,bf%d,cqu%d/%d,cqd%d/%d,rm%d/%d,tu%d,td%d,sk%d"
+      v.(0) v.(1) v.(2) v.(8) v.(3) v.(6) v.(9) v.(12) v.(14) v.(17) v.(19) tl bt bf v.(4) v.(7) v.(10) v.(13) v.(5) v.(11) v.(15) v.(16) v.(18)
 
 let ledger removed np s =
-  let rs = List.init np (fun c -> show_row removed s.rows c) in
+  let rs = List.init np (fun c -> show_row s.blocks removed s.rows c) in
   String.concat " " rs ^ " " ^ show_glob removed s
 
 let nat c = nat_of_int c
